@@ -101,6 +101,16 @@ let () =
          | None -> List []
          | Some (tb, cb) -> List [List [of_list (of_list of_sx) tb; of_list (of_list of_sx) cb]])
     | _ -> failwith "c13-textblocks: bad case");
+  Registry.register "eventstext" (fun s ->
+    match list s with
+    | [w; p; evs; pays] ->
+        of_opt of_str (M.c13_events_text (list_ str_ evs) (list_ str_ pays) (omega_ w) (project_ p))
+    | _ -> failwith "c13-eventstext: bad case");
+  Registry.register "zodblocks" (fun s ->
+    match list s with
+    | [w; p; ss] ->
+        of_opt (of_list (of_list (of_list of_sx))) (M.c13_zod_blocks (list_ struct_ ss) (omega_ w) (project_ p))
+    | _ -> failwith "c13-zodblocks: bad case");
   Registry.register "fileblocks" (fun s -> of_list (of_list of_sx) (M.c13_file_blocks (str_ s)));
   Registry.register "classes" (fun s -> of_list of_bool (M.c13_classes (project_ s)));
   Registry.register "rel" (fun s ->
